@@ -13,13 +13,17 @@
     completed transfer, `pop` returns the stored data and removes it (`C18_recv_step`, `C18_pop`);
     every queued entry is a transfer completely received (`C18_recv_sound`);
   * idle is exactly the declared conjunction (`C18_idle_iff`).
-  Not covered here: the integer ranges of 't' and 'y' arguments (lengths below 2^64, octets below 256),
-  the UDPCL agent's signals (decided by the implementation-side monitor and the UDPCL correspondence).
+  * every unsigned ('t') argument of every signal is below 2^64, against any peer (`C18_uint64_args`):
+    lengths taken from ACKs were decoded from eight octets, received lengths count octets really
+    received (`C17_handled_wf`), queued lengths are those the user handed in.
+  Not covered here: the UDPCL agent's signals (decided by the implementation-side monitor and the UDPCL
+  correspondence); 'y' appears only as a method argument, where D-Bus validates it on the way in.
 -/
 import DtnVerif.Lemmas.TcpclShape
 import DtnVerif.Lemmas.TcpclQueueRx
 import DtnVerif.Lemmas.TcpclRun
 import DtnVerif.Lemmas.TcpclRxMore
+import DtnVerif.Lemmas.TcpclRange
 import DtnVerif.Generated.Facts
 import Std.Data.String.ToNat
 namespace DtnVerif
@@ -294,6 +298,32 @@ example : (run {} evsEx).2 =
      [.ret (.str "1")], [.ret (.str "2")], [.ret (.strs ["1", "2"])],
      [.raised "RuntimeError"], [.ret (.strs ["1", "2"])]] := by decide +kernel
 end Example
+
+/- ------------------------------------------------------------------ numeric ranges -/
+
+/-- **Every 't' argument fits 64 bits.** Over any event list — arbitrary octets from the peer in
+    arbitrary chunks, any user calls, timers — in which the user hands in bundles shorter than 2^64
+    octets and fewer than 2^64 octets are received in all (`RunOK`), every unsigned argument of every
+    signal the endpoint emits is below 2^64: emission cannot fail on range grounds either. -/
+theorem C18_uint64_args (cfg : Cfg) (evs : List Ev) (hok : RunOK { cfg := cfg } evs) :
+    ∀ os ∈ (run { cfg := cfg } evs).2, ∀ o ∈ os, ∀ name args, o = .sig name args →
+      ∀ n, Val.nat n ∈ args → n < 2 ^ 64 := by
+  intro os hos o ho name args heq n hn
+  have h := ri_run evs _ (ri_init cfg) hok os hos
+  simp only [ranges, List.all_eq_true] at h
+  have h1 := h o ho
+  subst heq
+  simp only [Out.rangeOK, List.all_eq_true] at h1
+  have h2 := h1 _ hn
+  simp only [Val.inRange, decide_eq_true_eq] at h2
+  rw [← B64_eq]; exact h2
+
+/-- non-vacuity: a run which meets `RunOK` and emits signals with 't' arguments -/
+example : RunOK { cfg := {} } [.start, .send [1, 2, 3], .rx [0x64, 0x74, 0x6e, 0x21, 4, 0]] := by
+  refine ⟨(by intro d h; cases h), (by intro c h; cases h), ?_⟩
+  refine ⟨(by intro d h; cases h; decide), (by intro c h; cases h), ?_⟩
+  refine ⟨(by intro d h; cases h), ?_, trivial⟩
+  intro c h; cases h; decide
 
 end Tcpcl
 end DtnVerif
